@@ -1,13 +1,13 @@
 CONSTANT PresentAt <- MCPresentAt
 CONSTANT StaleReuse = FALSE
-CONSTANT SwapShorter = FALSE
+CONSTANT SwapShorter = TRUE
 CONSTANT DefaultBatch = 2
 CONSTANT SwitchAt = 1
-CONSTANT AdaptAt = 3
+CONSTANT AdaptAt = 2
 CONSTANT SharedHandle = FALSE
-CONSTANT MaxLen = 4
-CONSTANT MaxT = 3
-CONSTANT MaxB = 3
+CONSTANT MaxLen = 3
+CONSTANT MaxT = 2
+CONSTANT MaxB = 2
 INIT Init
 NEXT Next
 INVARIANT ScheduleIndependent
